@@ -101,9 +101,12 @@ Cryptographic Length fits 32 bits signed, dates 64 bits, the oracle subtrees are
 than 2^32 bytes.  The part of it that speaks about the DATA of a successful item is derived from the engine model
 (`item_data_in_range`): it holds for every operation in every engine state whose STORE is in range
 (`StoreInRange`: the stored enumeration values, lengths, masks, states, dates fit; at most 2^31 instances of a
-multi-valued attribute) - except for the attribute a KMIP 1.x ModifyAttribute echoes.  That `StoreInRange` is an
-invariant of serving requests whose values are in range is NOT proved: it stays a hypothesis, exercised by the
-harness (`inRange` is evaluated on every response of every correspondence run). -/
+multi-valued attribute) - except for the attribute a KMIP 1.x ModifyAttribute echoes.
+`Props/ServerWF.lean` discharges all of it for the composed server: the range of the stored values is an invariant
+of serving requests in range (`processRequest_store_in_range`), every request decoded from bytes is in range
+(`decode_in_range`), the echoed index is the request's, and `responseInRange` follows for every message shorter than
+2^32 bytes (`request_response_in_range`, `served_bytes_wellformed`).  The harness still evaluates `inRange` on every
+response of every correspondence run. -/
 theorem server_response_wellformed (c : Ctx) (e : Engine) (id : Identity) (req : Request)
     (extras : List (List TItem)) (bs : Bytes)
     (hb : responseBytes req.version c.now extras (processRequest c e id req).2 = some bs)
